@@ -32,7 +32,8 @@ class Path:
 
 
 class LoopHooks(Hooks):
-    def __init__(self, decisions):
+    def __init__(self, decisions, ordering=None):
+        self.ordering = ordering             # optional: scalar symbol name -> Fraction (one ordering of the times)
         self.decisions = dict(decisions)     # test text -> bool
         self.seen = []                       # [(text, decision)] in order of evaluation
         self.unknown = []
@@ -53,6 +54,11 @@ class LoopHooks(Hooks):
             return r
         except AnalysisError:
             pass
+        if self.ordering:
+            from ..interp import decide_by_model
+            r = decide_by_model(interp, test, env, fi, self.ordering)
+            if r is not NotImplemented:
+                return r
         if text in self.decisions:
             d = self.decisions[text]
         else:
@@ -271,15 +277,25 @@ def head_env(self_obj, ts_obj, out_t):
     return env
 
 
-def run_body(model, adaptive, stmts, decisions, env_override=None):
+def run_body(model, adaptive, stmts, decisions, env_override=None, ordering=None):
     fi = _integrate(model)
     steps = []
     self_obj = make_self(model, adaptive, steps)
     ts_obj, out_t = make_ts()
     env = head_env(self_obj, ts_obj, out_t)
+    # any further local the prologue initialises (a step counter, a flag) is loop state of its own: a fresh symbol at the
+    # loop head; the rules then see whether it reaches a step argument (R12.2, R13.5)
+    try:
+        _fi, prologue, _f, _w, _t, _e = loop_structure(model)
+        for st in prologue:
+            for n in ast.walk(st):
+                if isinstance(n, ast.Name) and isinstance(n.ctx, ast.Store) and n.id not in env:
+                    env[n.id] = nf.sym(f"{n.id}@head", True)
+    except AnalysisError:
+        pass
     if env_override:
         env.update(env_override)
-    hooks = LoopHooks(decisions)
+    hooks = LoopHooks(decisions, ordering)
     it = Interp(model, hooks)
     errors = []
     try:
@@ -315,6 +331,41 @@ def enumerate_paths(model, adaptive, stmts):
         if len(paths) > 64:
             raise AnalysisError("more than 64 paths through one iteration of the stepping loop")
     return paths
+
+
+def extra_loop_state(model):
+    """Locals the prologue initialises besides the known roles: {name: initial value (Fraction) or None}."""
+    fi, prologue, f, w, tail, epi = loop_structure(model)
+    known = set(CARRIED) | {"ys"}
+    out = {}
+    for st in prologue:
+        if isinstance(st, ast.Assign):
+            for t in st.targets:
+                if isinstance(t, ast.Name) and t.id not in known:
+                    v = st.value
+                    out[t.id] = Fraction(v.value) if isinstance(v, ast.Constant) and isinstance(v.value, (int, float)) \
+                        and not isinstance(v.value, bool) else None
+    return out
+
+
+def step_counters(model):
+    """Extra loop state that counts fixed steps: initialised to a constant c0 and incremented by exactly one on the
+    (single) fixed-step path.  For such a counter the inductive hypothesis of the fixed-step grid reads
+    curr_t == ts[0] + (counter - c0) * step_size, which is returned as a substitution for `counter@head`."""
+    subs = {}
+    extras = extra_loop_state(model)
+    if not extras:
+        return subs
+    fi, prologue, f, w, tail, epi = loop_structure(model)
+    paths = enumerate_paths(model, False, w.body)
+    for name, c0 in extras.items():
+        if c0 is None:
+            continue
+        head = nf.sym(f"{name}@head", True)
+        if paths and all(isinstance(p.env.get(name), Rat) and nf.equal(p.env.get(name), head + 1) for p in paths):
+            subs[("s", f"{name}@head")] = Rat.const(c0) + (H("curr_t") - nf.sym("ts[0]", True)) / H("step_size")
+    return subs
+
 
 
 def time_of(v, what):
@@ -458,21 +509,40 @@ def rule_last_steps(ctx, rule_id, drift=True):
     cases.append(("remainder dt/2", T - dt - dt / 2, T - dt / 2, "a genuine remainder is a clipped step of its own"))
     cases.append(("remainder dt/10", T - dt - dt / 10, T - dt / 10, "a genuine remainder is a clipped step of its own"))
     cases.append(("exact", T - dt, T, "exact grid"))
+    cases = [c + (dt,) for c in cases]
+    # adaptive stepping near the end with a controller step far below the nominal dt: "rounding-size" is relative to the
+    # step actually being taken, so a remainder of two such steps is a genuine remainder
+    small = dt / 10 ** 4
+    adaptive_cases = [("adaptive step dt/1e4, three steps from the end", T - 3 * small, T - 2 * small,
+                       "the trial step is the controller's step size, not stretched to ts[-1]", small)]
+    if drift:
+        adaptive_cases.append(("adaptive step dt/1e4, remainder 1e-9 of it", T - small - small / 10 ** 9, T,
+                               "the remainder is accumulated rounding error", small))
     for adaptive in (False, True):
-        for name, start, want_end, why in cases:
+        for name, start, want_end, why, ss in cases + (adaptive_cases if adaptive else []):
             steps = []
             self_obj = make_self(model, adaptive, steps)
             self_obj.attrs["dt"] = dt
-            self_obj.attrs["dt_min"] = dt / 1000
+            self_obj.attrs["dt_min"] = dt / 10 ** 6
 
-            def getitem(it, obj, idx, node, f2, T=T):
+            # ts[0] lies a whole number of steps before the start (up to the drift of the case), so that an indexed grid
+            # ts[0] + k * step and an accumulated one describe the same situation
+            k_steps = 6
+            nominal = start if name.startswith(("remainder", "exact", "adaptive step dt/1e4, three")) else T - ss
+            ts0 = nominal - k_steps * ss
+
+            def getitem(it, obj, idx, node, f2, T=T, ts0=ts0):
                 if idx == 0:
-                    return Fraction(0)
+                    return ts0
                 if idx == -1:
                     return T
                 raise AnalysisError(f"unexpected index into ts: {idx!r}", where=astq.loc(f2, node))
             env = head_env(self_obj, Obj("ts", getitem_hook=getitem), T)
-            env.update({"curr_t": start, "prev_t": start - dt, "step_size": dt})
+            env.update({"curr_t": start, "prev_t": start - ss, "step_size": ss})
+            # a step counter (indexed grid) has no drift by construction: it holds the number of whole steps taken so far
+            for xname, c0 in extra_loop_state(model).items():
+                if c0 is not None:
+                    env[xname] = c0 + k_steps
             hooks = LoopHooks({})
             it = Interp(model, hooks)
             construct = f"{fi.key}::{rule_id}::{'adaptive' if adaptive else 'fixed'}::{name}"
@@ -491,6 +561,6 @@ def rule_last_steps(ctx, rule_id, drift=True):
                       f"accumulation (e.g. ts=[0, 0.8], dt=0.1) the solver then takes an extra step of rounding-error length, "
                       f"which reversible Heun does not undo (forward/backward grids differ): reconstruction error ~5e-3, "
                       f"adjoint gradients off by ~1e-2", why)
-    ctx.floor(rule_id, 16 if drift else 6)
+    ctx.floor(rule_id, 18 if drift else 7)
 
 
